@@ -1,35 +1,281 @@
+mod alpha;
+mod builder_eng;
+mod hist;
+mod input;
 mod keccak;
+mod model;
+mod pairs;
+mod real;
 mod refcrypto;
 mod refspec;
+mod replay;
+mod report;
 mod rlp;
 mod schemes;
+mod text;
+mod value;
 
-use alloy_rlp::Decodable;
+use hist::Tier;
+use report::Report;
 use schemes::*;
+use std::time::Instant;
 
-fn smoke<S: Sch>() {
-    let items = vec![
-        rlp::enc_int(1),
-        rlp::enc_str(b"id"),
-        rlp::enc_str(b"v4"),
-        rlp::enc_str(S::key_name()),
-        rlp::enc_str(&S::pub_raw(0)),
-    ];
-    let rec = ref_sign_record::<S>(0, &items, &items, 64);
-    let r = enr::Enr::<S::K>::decode(&mut &rec[..]);
-    let v = S::KT.map(|kt| refspec::ref_decode(&rec, kt).is_accept());
-    println!("{}: real={:?} ref={:?} len={}", S::NAME, r.as_ref().map(|e| e.seq()).map_err(|e| e.to_string()), v, rec.len());
+pub fn verif_dir() -> String {
+    std::env::var("VERIF_DIR").unwrap_or_else(|_| "/verif".to_string())
+}
+
+fn arg_val(args: &[String], name: &str) -> Option<String> {
+    args.iter().position(|a| a == name).and_then(|i| args.get(i + 1).cloned())
+}
+
+pub const CFG: &str = if cfg!(feature = "cfg-a") { "A" } else { "B" };
+
+/// HIST over the named schemes (histories + builder sub-exploration).
+fn run_hist(tier: Tier, schemes: &[&str], builder: bool, rep: &mut Report) {
+    let want = |n: &str| schemes.is_empty() || schemes.iter().any(|s| *s == n);
+    macro_rules! go {
+        ($s:ty) => {
+            if want(<$s>::NAME) {
+                let t = Instant::now();
+                let states = hist::explore_scheme::<$s>(tier, rep);
+                eprintln!("[hist:{CFG}] {} states={} ({:.1}s)", <$s>::NAME, states.len(), t.elapsed().as_secs_f64());
+                if builder {
+                    let t = Instant::now();
+                    builder_eng::explore_builder::<$s>(tier, rep);
+                    eprintln!("[hist:{CFG}] {} builder ({:.1}s)", <$s>::NAME, t.elapsed().as_secs_f64());
+                }
+            }
+        };
+    }
+    go!(K256S);
+    #[cfg(feature = "cfg-a")]
+    go!(LibSecpS);
+    go!(EdS);
+    go!(CombSecpS);
+    go!(CombEdS);
+    go!(FaultK256S);
+    go!(FaultEdS);
+    go!(VarS);
+    rep.stats.exhaustive = true;
+}
+
+struct Plan {
+    rule: &'static str,
+    assumptions: Vec<&'static str>,
+}
+
+const TRUST: &str = "trusted: rustc; libsecp256k1 and k256 (each only as the other's oracle); curve25519-dalek; sha2; own keccak self-tested against sha3";
+const BOUND_HIST: &str = "bounded: histories up to the depth reported per alphabet (full / core / mini), the alphabets of DESIGN.md 3.4";
+const BOUND_INPUT: &str = "bounded: inputs within the reported number of deviations of the reference-signed seed shapes";
+
+fn run_property(prop: &str, tier: Tier, rep: &mut Report) -> Plan {
+    let hist_rule = "explicit-state BFS over call histories on the real code in lock-step with the R-map model; a case is non-trivial/distinct when it is a distinct canonical state (owner, seq, pairs, signature length)";
+    let input_rule = "exhaustive enumeration of every operator at every position (d deviations) around reference-signed seeds, decoded by the real decoder under every key type, judged by R-spec; distinct = distinct input bytes";
+    let b = CFG == "B";
+    match prop {
+        "C01" => {
+            let cases = input::authenticity_cases(tier);
+            input::run_cases(&cases, rep, |c| c.family != "byte" || c.devs == 0);
+            rep.stats.exhaustive = true;
+            rep.require_class("accept/ref-accept");
+            rep.require_class("sole-rule:R18SignatureInvalid");
+            Plan { rule: input_rule, assumptions: vec![TRUST, BOUND_INPUT, "cryptographic strength of ECDSA / Ed25519 is not examined"] }
+        }
+        "C02" => {
+            let cases = input::structural_cases(tier);
+            input::run_cases(&cases, rep, |_| true);
+            rep.stats.exhaustive = true;
+            rep.require_class("accept/ref-accept");
+            for r in [
+                "R1OuterNotList", "R2OuterNonCanonical", "R3TooLarge", "R4Overrun", "R5TooFewItems", "R7SeqNotCanonicalInt", "R8KeyNotString", "R9KeysNotIncreasing",
+                "R10OddItemCount", "R11ItemNonCanonical", "R12IdMissingOrNotV4", "R13IpNot4", "R14Ip6Not16", "R15PortNotCanonicalU16", "R16PubkeyMissing", "R17PubkeyInvalid",
+            ] {
+                rep.require_class(&format!("sole-rule:{r}"));
+            }
+            Plan { rule: input_rule, assumptions: vec![TRUST, BOUND_INPUT, "open regions (inner bytes of list values, 65-byte SEC1 keys, list under the other scheme's key name) are counted, not judged"] }
+        }
+        "C03" => {
+            text::run_c03_sweeps(tier, rep);
+            let cases = input::structural_cases(Tier::Quick);
+            input::run_cases(&cases, rep, |c| c.devs <= 1 && c.label.contains(":minimal"));
+            if tier == Tier::Thorough {
+                let cases = input::authenticity_cases(Tier::Quick);
+                input::run_cases(&cases, rep, |_| false);
+                text::run_c12(Tier::Quick, rep);
+                text::run_c13(Tier::Quick, rep);
+            }
+            if b {
+                run_hist(tier, &["k256"], true, rep);
+            } else {
+                run_hist(tier, &["k256", "ed", "comb-ed", "fault-ed"], true, rep);
+            }
+            replay::cross_scheme_histories(rep);
+            rep.require_class("c03:byte-strings");
+            Plan { rule: "all byte strings / texts up to the reported length, every C02 case, every transition of the HIST graph; every accessor swept on every record handed out; oracle = no unwinding panic", assumptions: vec![TRUST, "overflow checks and debug assertions are on for enr, alloy-rlp, bytes, base64, hex", "UB that does not trap is not monitored"] }
+        }
+        "C04" => {
+            let cases = input::structural_cases(tier);
+            input::run_cases(&cases, rep, |_| false);
+            run_hist(tier, if b { &["k256"] } else { &["k256", "libsecp", "ed", "comb-secp"] }, true, rep);
+            rep.require_class("accept/ref-accept");
+            Plan { rule: "every accepted C02 case (decode side) and every state of the HIST graph (record side): byte-exact re-encode, bytes/text/JSON round trips, fields = independent parse", assumptions: vec![TRUST, BOUND_HIST, BOUND_INPUT] }
+        }
+        "C05" => {
+            run_hist(tier, if b { &["k256", "comb-secp", "comb-ed"] } else { &[] }, true, rep);
+            rep.require_class("merge");
+            rep.require_class("build:ok");
+            Plan { rule: hist_rule, assumptions: vec![TRUST, BOUND_HIST, "configurations A (all features) and B (without rust-secp256k1)"] }
+        }
+        "C06" => {
+            run_hist(tier, if b { &["k256", "fault-k256"] } else { &["k256", "ed", "fault-k256", "fault-ed", "var"] }, true, rep);
+            for c in ["err:ExceedsMaxSize:insert_raw_rlp", "err:SequenceNumberTooHigh:set_udp_socket", "err:InvalidRlpData:insert_raw_rlp", "err:UnsupportedIdentityScheme:remove_key", "fault@0:remove_insert", "fault@0:set_seq"] {
+                rep.require_class(c);
+            }
+            Plan { rule: "every failing transition of the HIST graph, plus a signing fault injected at every signing call of every transition (FaultKey / VarKey), plus over-long signature answers (VarKey); oracle = before/after snapshot identity", assumptions: vec![TRUST, BOUND_HIST, "one injected fault per transition"] }
+        }
+        "C07" => {
+            run_hist(tier, if b { &["k256"] } else { &["k256", "ed", "comb-ed"] }, true, rep);
+            value::run_c07_values::<EdS>(tier, rep);
+            if tier == Tier::Thorough {
+                value::run_c07_values::<K256S>(tier, rep);
+            }
+            rep.require_class("err:SequenceNumberTooHigh:insert");
+            rep.require_class("c07:seq-values");
+            Plan { rule: "HIST transitions from 12 boundary sequence numbers; every seq value 0..=65536 and 2^k-1,2^k,2^k+1 through builder/encode/decode and R-sign/decode", assumptions: vec![TRUST, BOUND_HIST] }
+        }
+        "C08" => {
+            run_hist(tier, if b { &["k256", "comb-secp"] } else { &["k256", "libsecp", "ed", "comb-secp", "comb-ed", "fault-ed"] }, true, rep);
+            rep.require_class("merge");
+            Plan { rule: hist_rule, assumptions: vec![TRUST, BOUND_HIST, "where the statements are silent the model yields a set of admissible outcomes (DESIGN.md 9)"] }
+        }
+        "C09" => {
+            let seqs_q: &[u64] = &[1, 127, 255, 65535];
+            let seqs_t: &[u64] = &[1, 127, 255, 65535, (1 << 24) - 1, (1 << 32) - 1, (1 << 56) - 1, u64::MAX - 1];
+            let seqs = if tier == Tier::Thorough { seqs_t } else { seqs_q };
+            if b {
+                hist::c09_sweep::<K256S>(&seqs[..2], 296, 304, &[64], rep);
+            } else {
+                hist::c09_sweep::<K256S>(seqs, 280, 320, &[64], rep);
+                hist::c09_sweep::<EdS>(seqs, 280, 320, &[64], rep);
+                hist::c09_builder_sweep::<K256S>(seqs, 280, 320, rep);
+                hist::c09_builder_sweep::<EdS>(seqs, 280, 320, rep);
+                hist::c09_sweep::<VarS>(&seqs[..2], 296, 304, &[2, 55, 56, 65, 100, 255, 256], rep);
+                if tier == Tier::Thorough {
+                    #[cfg(feature = "cfg-a")]
+                    hist::c09_sweep::<LibSecpS>(seqs, 280, 320, &[64], rep);
+                    hist::c09_sweep::<CombSecpS>(seqs, 280, 320, &[64], rep);
+                    hist::c09_sweep::<CombEdS>(seqs, 280, 320, &[64], rep);
+                    run_hist(tier, &["k256", "var"], true, rep);
+                } else {
+                    run_hist(tier, &["ed"], true, rep);
+                }
+            }
+            rep.stats.exhaustive = true;
+            for c in ["c09:k256:result>300:err", "c09:k256:result<=300:ok"] {
+                rep.require_class(c);
+            }
+            Plan { rule: "every mutator form x predicted result size 280..320 in 1-byte steps x seq values whose encoding grows on increment, start records constructed by R-sign so that the model's predicted result size is exactly the target; plus the HIST graph", assumptions: vec![TRUST, "size prediction by R-RLP (independent of alloy-rlp)"] }
+        }
+        "C10" => {
+            run_hist(tier, if b { &["k256"] } else { &["k256", "libsecp", "ed", "comb-secp", "comb-ed"] }, true, rep);
+            value::run_c10_values(tier, rep);
+            let cases = input::structural_cases(Tier::Quick);
+            input::run_cases(&cases, rep, |_| false);
+            rep.require_class("c10:edge-case-keys");
+            Plan { rule: "every state of the HIST graph, every accepted C02 case, edge-case scalars for all key types; expected id = own keccak256 over the independently derived uncompressed key", assumptions: vec![TRUST, BOUND_HIST] }
+        }
+        "C11" => {
+            let cases = input::structural_cases(tier);
+            input::run_cases(&cases, rep, |_| false);
+            let cases = input::authenticity_cases(tier);
+            input::run_cases(&cases, rep, |_| false);
+            run_hist(Tier::Quick, if b { &["k256", "comb-secp"] } else { &["k256", "libsecp", "ed", "comb-secp", "comb-ed"] }, false, rep);
+            rep.stats.exhaustive = true;
+            rep.require_class("nontrivial:accept:combined");
+            Plan { rule: "every C01/C02 case decoded under all key types: pairwise agreement and the interchangeability relation; every HIST state re-decoded under every other back-end of its scheme", assumptions: vec![TRUST, BOUND_INPUT, "public keys restricted to the 33-byte compressed form or invalid encodings"] }
+        }
+        "C12" => {
+            text::run_c12(tier, rep);
+            Plan { rule: "every single edit (insert/replace/delete of each of 75 characters at every position, alphabet swap, padding, prefix variants, all trailing-bit variants, 1..8 appended bytes) of the canonical text of each pool record, through str::parse and serde_json; distinct = distinct text", assumptions: vec![TRUST, "the implication tested on mutants is one-directional (impl accepts => strict reference accepts)"] }
+        }
+        "C13" => {
+            text::run_c13(tier, rep);
+            Plan { rule: "every seed and every single-deviation structural mutant x suffix alphabet; all sequences of 1..n records from 3 seeds back to back and as an RLP list; metamorphic oracle decode(item+suffix) = decode(item)", assumptions: vec![TRUST, "error kinds are not compared"] }
+        }
+        "C14" => {
+            value::run_c14(tier, rep);
+            Plan { rule: "all 65536 ports x 4 port keys x 4 entry points; address / client-info / raw-value alphabets; all 64 presence combinations; oracle = own RLP codec", assumptions: vec![TRUST, "typed getters on ill-typed values under reserved keys are unreachable once C05 holds (not checked)"] }
+        }
+        "C15" => {
+            pairs::run_c15_scheme::<K256S>(tier, rep);
+            pairs::run_c15_scheme::<EdS>(tier, rep);
+            if tier == Tier::Thorough {
+                pairs::run_c15_scheme::<CombSecpS>(tier, rep);
+                #[cfg(feature = "cfg-a")]
+                pairs::run_c15_scheme::<LibSecpS>(tier, rep);
+            }
+            rep.require_class("c15:equal-pairs-present");
+            rep.require_class("c15:same-content-different-signature-pair");
+            Plan { rule: "all ordered pairs of a pool of HIST states closed under clone, decode/encode, text round trip, re-signing, re-keying and one-field edits", assumptions: vec![TRUST, "std DefaultHasher::new() as the fixed hasher"] }
+        }
+        "C16" => {
+            value::run_c16(tier, rep);
+            Plan { rule: "32-byte pattern alphabet; all slice lengths 0..=64; hex strings of every length 0..=70 with/without prefix; every single-character corruption", assumptions: vec!["direct oracle"] }
+        }
+        "C17" => {
+            value::run_c17(tier, rep);
+            Plan { rule: "boundary scalars 0,1,2,n-2..n+1,2^255,2^256-1 and a pattern alphabet; ed25519 lengths 0..=64; oracle = independent public-key derivation", assumptions: vec![TRUST] }
+        }
+        _ => {
+            rep.machinery.push(format!("unknown property {prop}"));
+            Plan { rule: "", assumptions: vec![] }
+        }
+    }
 }
 
 fn main() {
-    keccak::self_test().unwrap();
-    refcrypto::self_test().unwrap();
-    smoke::<K256S>();
-    #[cfg(feature = "cfg-a")]
-    smoke::<LibSecpS>();
-    smoke::<EdS>();
-    smoke::<CombSecpS>();
-    smoke::<CombEdS>();
-    smoke::<FaultK256S>();
-    smoke::<VarS>();
+    std::panic::set_hook(Box::new(|_| {}));
+    let args: Vec<String> = std::env::args().collect();
+    if let Err(e) = keccak::self_test().and_then(|_| refcrypto::self_test()) {
+        println!("MACHINERY-ERROR: self test failed: {e}");
+        std::process::exit(2);
+    }
+    let cmd = args.get(1).map(|s| s.as_str()).unwrap_or("");
+    let tier_s = arg_val(&args, "--tier").unwrap_or_else(|| "quick".into());
+    let tier = if tier_s == "thorough" { Tier::Thorough } else { Tier::Quick };
+    let prop = arg_val(&args, "--prop").unwrap_or_default();
+    let t0 = Instant::now();
+    match cmd {
+        "check" => {
+            let mut rep = Report::default();
+            let plan = run_property(&prop, tier, &mut rep);
+            // determinism self-check: the count of violations per signature must be reproducible for a
+            // re-execution of the first recorded violation (a non-reproducing violation is machinery)
+            let f = report::finalize(&prop, &tier_s, verif_seed(), &rep, t0.elapsed().as_secs_f64(), plan.rule, &plan.assumptions, &verif_dir(), CFG);
+            eprintln!("[{prop}:{CFG}] states={} transitions={} executions={} unlisted={} known={} wall={:.1}s", rep.stats.states, rep.stats.transitions, rep.stats.evaluations, f.unlisted, f.known, t0.elapsed().as_secs_f64());
+            std::process::exit(f.exit);
+        }
+        "hist-all" => {
+            // development aid: one HIST run, every property's violations
+            let mut rep = Report::default();
+            let schemes: Vec<String> = arg_val(&args, "--schemes").map(|s| s.split(',').map(|x| x.to_string()).collect()).unwrap_or_default();
+            let sr: Vec<&str> = schemes.iter().map(|s| s.as_str()).collect();
+            run_hist(tier, &sr, true, &mut rep);
+            let mut exit = 0;
+            for p in ["C03", "C04", "C05", "C06", "C07", "C08", "C09", "C10", "C11", "C12"] {
+                let f = report::finalize(p, &tier_s, verif_seed(), &rep, t0.elapsed().as_secs_f64(), "dev", &[], &verif_dir(), CFG);
+                exit = exit.max(f.exit);
+            }
+            eprintln!("[hist] states={} transitions={} executions={} wall={:.1}s", rep.stats.states, rep.stats.transitions, rep.stats.evaluations, t0.elapsed().as_secs_f64());
+            std::process::exit(exit);
+        }
+        "replay" => {
+            let path = args.get(2).cloned().unwrap_or_default();
+            std::process::exit(replay::replay_file(&path));
+        }
+        _ => {
+            eprintln!("usage: enrmc check --prop Cxx --tier quick|thorough | replay <file> | hist-all [--schemes a,b]");
+            std::process::exit(2);
+        }
+    }
 }
